@@ -41,14 +41,14 @@ func runtimeRepeat() []byte {
 	a.push1(0x20).op(opCALLDATALOAD)                     // [n, i]
 	a.label("loop")
 	a.op(opDUP1, opISZERO).ref("done").op(opJUMPI)
-	a.push1(1).op(opSWAP1, opSUB)      // [n, i-1]
-	a.push1(0).push1(0)                // retSize retOff
-	a.op(opDUP4)                       // inSize = n
-	a.push1(0)                         // inOff
-	a.push1(0x60).op(opCALLDATALOAD)   // value
-	a.push1(0).op(opCALLDATALOAD)      // target
-	a.op(opGAS, opCALL)                // [n, i, ok]
-	a.push1(0x40).op(opCALLDATALOAD)   // [n, i, ok, mode]
+	a.push1(1).op(opSWAP1, opSUB)    // [n, i-1]
+	a.push1(0).push1(0)              // retSize retOff
+	a.op(opDUP4)                     // inSize = n
+	a.push1(0)                       // inOff
+	a.push1(0x60).op(opCALLDATALOAD) // value
+	a.push1(0).op(opCALLDATALOAD)    // target
+	a.op(opGAS, opCALL)              // [n, i, ok]
+	a.push1(0x40).op(opCALLDATALOAD) // [n, i, ok, mode]
 	a.op(opOR, opISZERO).ref("rev").op(opJUMPI)
 	a.ref("loop").op(opJUMP)
 	a.label("done")
@@ -188,4 +188,28 @@ func (g *Gen) TokenCall(from *Account, kind Kind, token, contract common.Address
 // describes the untouched transaction.
 func (g *Gen) UtxoSpendPre(o SpendOpts, pre func(tx *types.UTXOTransaction, dests []types.DestEntry)) *Item {
 	return g.utxoSpend(o, pre)
+}
+
+// dropTokensAtCreation books what the chain does to issued tokens held by an
+// address at the moment a contract is created there: StateDB.CreateAccount
+// carries the coin balance of the existing account over to the new object and
+// nothing else, so the token balances are gone. The ledger follows the chain
+// (per-account prediction stays exact) and reports the amount under
+// LostAtCreation for the conservation oracle.
+func (l *Ledger) dropTokensAtCreation(addr common.Address) {
+	if !l.CreationDropsTokens {
+		return
+	}
+	for _, t := range l.Tokens() {
+		if t == Native {
+			continue
+		}
+		if v := l.Balance(t, addr); v.Sign() > 0 {
+			if l.LostAtCreation == nil {
+				l.LostAtCreation = map[common.Address]*big.Int{}
+			}
+			bump(l.LostAtCreation, t, v)
+			l.set(t, addr, new(big.Int))
+		}
+	}
 }
